@@ -236,7 +236,7 @@ def run_shard(ctx):
         if not ctx.mine(idx):
             continue
         ctx.seen('span_kinds', spec.kind)
-        for rep in range(ctx.pick(2, 6)):
+        for rep in range(ctx.pick(4, 12)):
             prog = rp.program()
             if gen.classify(prog).reject or 'named' in gen.classify(prog).features:
                 continue
@@ -245,7 +245,7 @@ def run_shard(ctx):
         containers_and_linkers(ctx, spec, rng)
     # symbol tables
     rp2 = gen.RandomPrograms(rng, max_depth=4, max_eqs=6, max_names=10, big_offsets=True)
-    for i in range(ctx.pick(40, 800)):
+    for i in range(ctx.pick(150, 3000)):
         prog = rp2.program()
         lay = gen.Layout(rng, noise=0.2, breaks=0.2, comments=0.2)
         symbol_round_trip(ctx, gen.render_program(prog, lay))
